@@ -2,11 +2,13 @@ package verifcheck
 
 import (
 	"fmt"
+	"sync/atomic"
 	"math/rand"
 	"path/filepath"
 	"sort"
 	"time"
 
+	"github.com/sanonone/kektordb/internal/verifhook"
 	"github.com/sanonone/kektordb/internal/verifkit"
 	"github.com/sanonone/kektordb/pkg/core/distance"
 	"github.com/sanonone/kektordb/pkg/core/types"
@@ -25,7 +27,37 @@ type Runner struct {
 	Flags                          map[string]bool
 	ghosts                         map[string][]string
 	Excluded                       map[string]int
+	cascadeBase                    int64 // value of hookCascadeEnd when this runner started
+	nDeletes                       int64 // successful VDelete calls (each starts one cascade goroutine)
 	LastErr                        error // error returned by the engine for the last Step (nil if it succeeded)
+}
+
+// hook plumbing: the engine (built with -tags verif) reports named step boundaries through
+// internal/verifhook. The base callback counts finished delete cascades; a test may chain one
+// more callback (crash imaging, forced schedules) with SetExtraHook.
+var (
+	hookCascadeEnd atomic.Int64
+	extraHook      atomic.Pointer[func(string)]
+)
+
+func init() {
+	verifhook.Set(func(name string) {
+		if name == "vdelete.cascade.end" {
+			hookCascadeEnd.Add(1)
+		}
+		if h := extraHook.Load(); h != nil {
+			(*h)(name)
+		}
+	})
+}
+
+// SetExtraHook installs (nil removes) an additional hook callback.
+func SetExtraHook(f func(string)) {
+	if f == nil {
+		extraHook.Store(nil)
+		return
+	}
+	extraHook.Store(&f)
 }
 
 func engineOpts(dir string) engine.Options {
@@ -45,7 +77,8 @@ func NewRunner(seed int64) (*Runner, error) {
 		cleanup()
 		return nil, err
 	}
-	return &Runner{Dir: filepath.Join(dir, "data"), E: e, M: NewModel(), cleanup: cleanup, Flags: map[string]bool{}, Excluded: map[string]int{}}, nil
+	return &Runner{Dir: filepath.Join(dir, "data"), E: e, M: NewModel(), cleanup: cleanup, Flags: map[string]bool{}, Excluded: map[string]int{},
+		cascadeBase: hookCascadeEnd.Load()}, nil
 }
 
 func (r *Runner) Close() {
@@ -151,15 +184,19 @@ func (r *Runner) settleCascade(idx, id string) string {
 	g := gid(idx, id)
 	deadline := time.Now().Add(10 * time.Second)
 	for {
-		in := r.E.DB.GetAllRelations(g, "in")
-		out := r.E.DB.GetAllRelations(g, "out")
-		if len(in) == 0 && len(out) == 0 {
-			return ""
+		// every successful VDelete starts exactly one background cascade; it reports its end through the hook
+		if hookCascadeEnd.Load()-r.cascadeBase >= r.nDeletes {
+			in := r.E.DB.GetAllRelations(g, "in")
+			out := r.E.DB.GetAllRelations(g, "out")
+			if len(in) == 0 && len(out) == 0 {
+				return ""
+			}
+			return fmt.Sprintf("delete cascade of %s finished but live edges remain: in=%v out=%v", g, in, out)
 		}
 		if time.Now().After(deadline) {
-			return fmt.Sprintf("delete cascade of %s did not settle within 10s with the engine idle: in=%v out=%v", g, in, out)
+			return fmt.Sprintf("delete cascade of %s did not finish within 10s with the engine idle", g)
 		}
-		time.Sleep(200 * time.Microsecond)
+		time.Sleep(100 * time.Microsecond)
 	}
 }
 
@@ -515,6 +552,7 @@ func (r *Runner) Step(op Op) string {
 	case KDel:
 		delete(mi.Live, op.ID)
 		r.addGhost(op.Idx, op.ID)
+		r.nDeletes++
 		if msg := r.settleCascade(op.Idx, op.ID); msg != "" {
 			return msg
 		}
@@ -653,4 +691,14 @@ func (r *Runner) addGhost(idx, id string) {
 	}
 	r.ghosts[idx] = append(r.ghosts[idx], id)
 	sort.Strings(r.ghosts[idx])
+}
+
+// Restart2 reopens an engine that the caller has already closed.
+func (r *Runner) Restart2() error {
+	e, err := engine.Open(engineOpts(r.Dir))
+	if err != nil {
+		return err
+	}
+	r.E = e
+	return nil
 }
